@@ -51,6 +51,10 @@ def junk_ruleset(rnd, first=None):
         parts.append(body)
     parts.insert(rnd.randint(1, len(parts)), rnd.choice(POISON))
     block = '{ ' + soup(rnd, rnd.randint(0, 5), 1, True) + ' }'
+    if rnd.random() < 0.25:
+        # a selector list whose LAST part is a good selector and whose block is good: one bad part makes the whole statement junk
+        parts.append(rnd.choice([', b', ', d > e', ',f:hover', ', , g']))
+        block = '{ left: 0; color: red }'
     return ' '.join(parts) + ' ' + block, first
 
 
